@@ -55,7 +55,11 @@ def make(ec, cf, pt, rep, p, order=None, gen=False):
     if rep == "negneg":
         return -(-ec.PointJacobi(cf, x, y, 1, order, gen))
     z = rep[1]
-    return ec.PointJacobi(cf, x * z * z % p, y * z * z * z % p, z, order, gen)
+    P = ec.PointJacobi(cf, x * z * z % p, y * z * z * z % p, z, order, gen)
+    if rep[0] == "pick":         # an unpickled copy (used several times by the callers)
+        import pickle
+        return pickle.loads(pickle.dumps(P))
+    return P
 
 
 def y0_involved(p, a, pts, want):
@@ -74,6 +78,7 @@ def add_events(args):
     events, keys = [], []
     Z0 = {"t": [0, 1, 0]}
     npair = 0
+    orders = {}
 
     def ev(op, A, B, out, pts, want, **kw):
         e = {"c": c, "op": op, "A": {"t": A}, "B": {"t": B} if B is not None else Z0, "out": out, "k": 0, "ka": 0, "kb": 0,
@@ -86,8 +91,13 @@ def add_events(args):
     for (P, Q) in pairs:
         for (ra, rb) in repsets:
             npair += 1
-            A = make(ec, cf, P, ra if P is not None else "inf", p)
-            B = make(ec, cf_twin if npair % 2 else cf, Q, rb if Q is not None else "inf", p)
+            # order annotations: none, the point's own order, or a multiple of it (all legitimate; equality and sums ignore them)
+            oa = ob = None
+            if npair % 3 == 1 and P is not None and Q is not None and ra != "aff" and rb != "aff":
+                oa = orders.setdefault(P, toy.t_order(P, p, a))
+                ob = 2 * orders.setdefault(Q, toy.t_order(Q, p, a)) if npair % 2 else None
+            A = make(ec, cf, P, ra if P is not None else "inf", p, oa)
+            B = make(ec, cf_twin if npair % 2 else cf, Q, rb if Q is not None else "inf", p, ob)
             tA, tB = triple(ec, cname, A), triple(ec, cname, B)
             want = toy.t_add(P, Q, p, a)
             ev("add", tA, tB, out_point(ec, lambda: A + B), [P, Q], want, ajac=isinstance(A, ec.PointJacobi))
